@@ -72,6 +72,63 @@ def impl_indices_advancing(ns0):
         c.time, g.kdf = old_time, old_kdf
 
 
+def seeded_case(ns, seedpos, empty_l2):
+    import dpapi_ng._client as c
+    import dpapi_ng._gkdi as g
+    import gen
+
+    class T:
+        @staticmethod
+        def time_ns():
+            return ns
+    old_time, old_kdf = c.time, g.kdf
+    c.time = T
+    g.kdf = lambda algorithm, secret, label, context, length: b"\x00" * length
+    try:
+        cache = c.KeyCache()
+        seed = gen.make_env(l0=seedpos[0], l1=seedpos[1], l2=seedpos[2], l1_key=b"\x11" * 64, l2_key=b"" if empty_l2 else b"\x22" * 64, root_key_identifier=RK)
+        cache._store_key(b"sd", seed)
+        env = c._get_protection_gke_from_cache(RK, b"sd", cache)
+        return None if env is None else (env.l0, env.l1, env.l2)
+    except Exception as e:  # noqa
+        from check import canon_exc
+        return "err " + canon_exc(e)
+    finally:
+        c.time, g.kdf = old_time, old_kdf
+
+
+def seeded_cache(ctx):
+    """a cache that holds a previously retrieved seed key (no root key) positioned at or after 'now' in the same L0: the
+    key identifier of a new blob must still name the interval of the clock, not the position of the cached seed"""
+    import dpapi_ng._client as c
+    import dpapi_ng._gkdi as g
+    import gen
+    rng = ctx.rng
+    for _ in range(400 if ctx.thorough else 80):
+        l0 = 361 + rng.randrange(3)
+        l1, l2 = rng.randrange(32), rng.randrange(32)
+        # seed position: same interval, later L2 in the same L1, L2 = 31, or a later L1
+        kind = rng.choice(["same", "later_l2", "l2_31", "later_l1"])
+        if kind == "same":
+            s1, s2 = l1, l2
+        elif kind == "later_l2":
+            s1, s2 = l1, min(31, l2 + rng.randrange(1, 32))
+        elif kind == "l2_31":
+            s1, s2 = l1, 31
+        else:
+            s1, s2 = min(31, l1 + rng.randrange(1, 32)), rng.randrange(32)
+        ns = ticks_to_ns(((l0 * 32 + l1) * 32 + l2) * B + rng.randrange(B))
+        if ns < 0:
+            continue
+
+        out = seeded_case(ns, (l0, s1, s2), s2 == 31 and rng.random() < 0.5)
+        ctx.count("cached_seed:" + kind)
+        if out != (l0, l1, l2):
+            ctx.violation("with a previously retrieved seed key in the cache the key identifier does not name the interval of the clock",
+                          {"time_ns": ns, "clock_interval": [l0, l1, l2], "cached_seed_position": [l0, s1, s2]}, str(out), str((l0, l1, l2)))
+            return
+
+
 def advancing_clock(ctx):
     """a clock that moves during the call: the key identifier must name the interval of ONE instant the clock showed
     (L0, L1 and L2 taken from different readings can name a key hours or a year in the past)"""
@@ -139,6 +196,7 @@ def run(ctx):
                           {"time_ns": ns, "filetime": ns // 100 + EPOCH}, out, exp)
     ctx.compare_batch(cases, nontrivial=lambda line, impl: True)
     advancing_clock(ctx)
+    seeded_cache(ctx)
 
 
 def search(ctx, broken, disagreements):
@@ -159,6 +217,11 @@ def search(ctx, broken, disagreements):
 
 def replay(ctx, payload):
     v = payload["violation"]
+    if "cached_seed_position" in v["input"]:
+        i = v["input"]
+        outs = [seeded_case(i["time_ns"], tuple(i["cached_seed_position"]), e) for e in (False, True)]
+        print(f"clock interval {i['clock_interval']}, cached seed at {i['cached_seed_position']}: implementation names {outs}")
+        return all(o == tuple(i["clock_interval"]) for o in outs[:1])
     if "start_time_ns" in v["input"]:
         out, shown = impl_indices_advancing(v["input"]["start_time_ns"])
         want = sorted(set(oracle(x // 100 + EPOCH) for x in shown))
